@@ -80,6 +80,20 @@ class Loader(yaml.SafeLoader):
             node = self.__process_node(node, type(self).document_type)
         return node
 
+    def construct_object(self, node: yaml.Node, deep: bool = False) -> Any:
+        """Constructs an object, reporting failures as RecognitionError.
+
+        PyYAML's constructors for the built-in types raise ValueError,
+        KeyError, IndexError, AttributeError or OverflowError if the
+        value is invalid for its tag (e.g. ``!!int x`` or 2001-13-45).
+        """
+        try:
+            return super().construct_object(node, deep)
+        except (RecognitionError, yaml.YAMLError):
+            raise
+        except Exception as e:
+            raise RecognitionError('{}\n{}'.format(node.start_mark, e))
+
     def __type_to_tag(self, type_: Type) -> str:
         """Convert a type to the corresponding YAML tag.
 
